@@ -85,6 +85,12 @@ def compare(suite, prefix, fields):
             if m.get("scope_m"):
                 # a state with linear knobs inside the hypotheses of the mixed-set theorem (C01_mixed_knobs_and_expressions)
                 ms["lines_in_mixed_knob_scope"] = ms.get("lines_in_mixed_knob_scope", 0) + 1
+            if m.get("fault_armed") and "scope_e18" in m:
+                # an expression assignment replayed under an armed fault; `scope_e18` = the decidable hypotheses of
+                # `C18_recover_expression_assignment` about the faulty attempt (`Manager.exprFaultScopeB`) hold on this line
+                ms["faulty_expression_assignments"] = ms.get("faulty_expression_assignments", 0) + 1
+                if m["scope_e18"]:
+                    ms["lines_in_expression_fault_scope"] = ms.get("lines_in_expression_fault_scope", 0) + 1
             if m.get("scope_f") and not m["scope"]:
                 # inside the function-task form of the theorem only (the state holds function tasks)
                 ms["lines_in_function_task_scope_only"] = ms.get("lines_in_function_task_scope_only", 0) + 1
